@@ -60,9 +60,13 @@ func (c *scriptConn) SetDeadline(t time.Time) error      { return nil }
 func (c *scriptConn) SetReadDeadline(t time.Time) error  { return nil }
 func (c *scriptConn) SetWriteDeadline(t time.Time) error { return nil }
 
+// c08resume: whether the clients built by c08client have Config.streamManagementResume set (a resumable session).
+var c08resume bool
+
 func c08client(sm, logger bool, conn net.Conn) (*xmpp.Client, *os.File, error) {
 	cfg := &xmpp.Config{TransportConfiguration: xmpp.TransportConfiguration{Address: "127.0.0.1:1", Domain: "localhost"},
 		Jid: "u@localhost/r", Credential: xmpp.Password("p"), StreamManagementEnable: sm}
+	xmpp.VerifSetSMResume(cfg, c08resume)
 	var lf *os.File
 	if logger {
 		lf, _ = os.OpenFile(os.DevNull, os.O_WRONLY, 0)
@@ -84,23 +88,62 @@ func c08client(sm, logger bool, conn net.Conn) (*xmpp.Client, *os.File, error) {
 func (c08) Exec(c Case) []string {
 	v := opMap(c.Variant)
 	sm, logger := v["sm"] == "true", v["logger"] == "true"
+	c08resume = v["resume"] == "true"
+	component := v["who"] == "component"
 	var obs []string
 	var seq *scriptConn
 	var client *xmpp.Client
+	var comp *xmpp.Component
 	for _, op := range c.Ops {
 		switch op[0] {
 		case "send", "sendraw":
-			if client == nil {
+			if client == nil && comp == nil {
 				seq = &scriptConn{}
+				if component {
+					var err error
+					comp, err = xmpp.NewComponent(xmpp.ComponentOptions{TransportConfiguration: xmpp.TransportConfiguration{Address: "127.0.0.1:1", Domain: "comp.localhost"},
+						Domain: "comp.localhost", Secret: "s"}, xmpp.NewRouter(), func(error) {})
+					if err != nil {
+						return []string{"newcomponent-failed"}
+					}
+					t, err := xmpp.NewComponentTransport(xmpp.TransportConfiguration{Address: "127.0.0.1:1", Domain: "comp.localhost"})
+					if err != nil {
+						return []string{"newtransport-failed"}
+					}
+					xmpp.VerifXMPPTransportSetConn(t.(*xmpp.XMPPTransport), seq)
+					xmpp.VerifSetComponentTransport(comp, t)
+				} else {
+					var err error
+					var lf *os.File
+					client, lf, err = c08client(sm, logger, seq)
+					if err != nil {
+						return []string{"newclient-failed"}
+					}
+					if lf != nil {
+						defer lf.Close()
+					}
+				}
+			}
+			if comp != nil {
+				seq.mu.Lock()
+				seq.calls = nil
+				seq.script = []string{op[len(op)-1]}
+				seq.mu.Unlock()
 				var err error
-				var lf *os.File
-				client, lf, err = c08client(sm, logger, seq)
+				if op[0] == "send" {
+					err = comp.Send(c10packet(op[1], unhx(op[2])))
+				} else {
+					err = comp.SendRaw(unhx(op[1]))
+				}
+				seq.mu.Lock()
+				calls := c10hexes(seq.calls)
+				seq.mu.Unlock()
+				ret := "ok"
 				if err != nil {
-					return []string{"newclient-failed"}
+					ret = "err"
 				}
-				if lf != nil {
-					defer lf.Close()
-				}
+				obs = append(obs, "w:"+calls+"|ret:"+ret+"|q:0")
+				continue
 			}
 			seq.mu.Lock()
 			seq.calls = nil
@@ -146,14 +189,27 @@ type c08sink struct {
 func (s *c08sink) element(id, body string) {
 	s.mu.Lock()
 	defer s.mu.Unlock()
-	if body != strings.Repeat(id+";", 3) {
+	if body != c08body(id) {
 		s.garbled++
 	}
 	s.got = append(s.got, id)
 }
 
-func c08payload(id string) (stanza.Packet, string) {
+// c08body: every seventh stanza is larger than the buffers a chunking writer would use (4 KiB encoder buffer)
+func c08body(id string) string {
 	body := strings.Repeat(id+";", 3)
+	h := 0
+	for _, ch := range id {
+		h = h*31 + int(ch)
+	}
+	if h%7 == 0 {
+		body += strings.Repeat(id+"-0123456789abcdef;", 400)
+	}
+	return body
+}
+
+func c08payload(id string) (stanza.Packet, string) {
+	body := c08body(id)
 	return stanza.Message{Attrs: stanza.Attrs{Id: id, To: "a@b"}, Body: body},
 		"<message id='" + id + "' to='a@b'><body>" + body + "</body></message>"
 }
@@ -446,9 +502,25 @@ func (c08) Generate(rng *rand.Rand, tier string, st *Stats) []Case {
 	var cases []Case
 	n := 0
 	bools := []bool{false, true}
+	type vr struct {
+		sm, lg, resume bool
+		who            string
+	}
+	var variants []vr
 	for _, sm := range bools {
 		for _, lg := range bools {
-			variant := []string{"sm=" + strconv.FormatBool(sm), "logger=" + strconv.FormatBool(lg)}
+			variants = append(variants, vr{sm, lg, false, "client"})
+			if sm {
+				variants = append(variants, vr{sm, lg, true, "client"}) // a resumable session: a failed write is still an error
+			}
+		}
+	}
+	variants = append(variants, vr{false, false, false, "component"})
+	big := strings.Repeat("0123456789abcdef", 700) // > the 4 KiB buffer of an xml.Encoder, > one TLS record is not needed
+	for _, vv := range variants {
+		{
+			sm, lg := vv.sm, vv.lg
+			variant := []string{"sm=" + strconv.FormatBool(sm), "logger=" + strconv.FormatBool(lg), "resume=" + strconv.FormatBool(vv.resume), "who=" + vv.who}
 			// sequential: every position of a write failure / short write in histories of sends
 			L := 3
 			var rec func(prefix [][]string, depth int)
@@ -465,8 +537,12 @@ func (c08) Generate(rng *rand.Rand, tier string, st *Stats) []Case {
 					cnt++
 					var op []string
 					if (cnt+depth)%2 == 0 {
-						b, _ := xml.Marshal(c10packet("message", fmt.Sprintf("m%d", cnt)))
-						op = []string{"send", "message", hx(fmt.Sprintf("m%d", cnt)), hx(string(b)), s}
+						body := fmt.Sprintf("m%d", cnt)
+						if cnt%5 == 0 {
+							body += big
+						}
+						b, _ := xml.Marshal(c10packet("message", body))
+						op = []string{"send", "message", hx(body), hx(string(b)), s}
 					} else {
 						op = []string{"sendraw", hx(fmt.Sprintf("<presence id='p%d'/>", cnt)), s}
 					}
@@ -476,6 +552,9 @@ func (c08) Generate(rng *rand.Rand, tier string, st *Stats) []Case {
 			rec(nil, L)
 			st.Add("sequential_histories", 27)
 			// concurrent
+			if vv.resume || vv.who == "component" {
+				continue
+			}
 			for _, tr := range []string{"tcp", "ws"} {
 				for _, who := range []string{"client", "component"} {
 					if tr == "ws" && who == "component" {
